@@ -264,6 +264,9 @@ def small_program(rng, tag="p", nonascii=False):
         f"  integer, parameter :: n_{tag} = {rng.randint(1, 9)}",
         f"  !> documented{doc}",
         f"  real :: {v1}({rng.randint(2, 5)})",
+        # a declaration continued over two lines, several names on the continuation line
+        f"  integer :: first_{tag}, &",
+        f"       second_value_with_a_long_name_{tag}, cc_{tag}",
         f"  type :: {t}",
         "    integer :: a",
         f"    real :: b = {rng.randint(0, 9)}.0",
@@ -274,6 +277,8 @@ def small_program(rng, tag="p", nonascii=False):
         f"  subroutine show_{tag}(self)",
         f"    class({t}), intent(in) :: self",
         "    print *, self%a, self%b",
+        f"    cc_{tag} = first_{tag} + &",
+        f"         second_value_with_a_long_name_{tag} + cc_{tag}",
         f"  end subroutine show_{tag}",
         f"  function twice_{tag}(x) result(r)",
         f"    !! doubles{doc}",
